@@ -158,6 +158,11 @@ func (r *runner) execute(p *Plan, keepLog bool) (*Kernel, *Violation) {
 		return k, nil
 	}
 	v := r.prop.Check(k, r.cov)
+	if v == nil && len(k.TSCrashes) > 0 {
+		// generated TS code brought its process down (in production: every request in flight is lost)
+		v = &Violation{Class: "ts-process-crash", Signature: r.prop.ID() + "|ts-process-crash|" + p.Mode,
+			Detail: "the Node process running the generated TS code reported " + strings.Join(k.TSCrashes, "; ")}
+	}
 	return k, v
 }
 
@@ -183,7 +188,8 @@ func Main(t *testing.T) {
 		mode = prop.Modes()[0]
 	}
 	soloT = t
-	if os.Getenv("VERIF_NODE") != "" {
+	// the Node co-simulator is started only for runs that use it (C11: only the TS client modes)
+	if os.Getenv("VERIF_NODE") != "" && !w.Spec().NoTS && (propID != "C11" || strings.HasPrefix(mode, "ts-")) {
 		b, err := StartBridge()
 		if err != nil {
 			t.Fatalf("starting TS bridge: %v", err)
